@@ -261,7 +261,7 @@ pub fn run(args: &Args, rep: &mut Report) {
     rep.sample(|| ops_json(&[(vec![(0, 1440)], RuleKind::Open), (vec![(570, 840), (360, 570)], RuleKind::Closed)]));
 
     // 4. random: <= 8 operations, <= 6 ranges each, minute-granular
-    let n = args.cases(40_000, 1_500_000);
+    let n = args.cases(400_000, 6_000_000);
     for k in 0..n {
         let mut r = Rng::new(args.seed, args.worker, k);
         let nops = 1 + r.below(8) as usize;
